@@ -5,7 +5,8 @@ import pyref
 
 RULE = ("verify (core and API entry points) in the build with overflow checks and debug assertions under catch_unwind, and in release: signature "
         "lengths 0..SIGNBYTES+8; hint counters 0..255 in every counter slot; hint indices 0/255; z fields all-0 / all-1 bits (largest magnitudes, both "
-        "signs) and just inside/outside the norm gate; t1 all 0x3FF; public key all-FF / all-00; mutated valid signatures; random bytes; plus the honest "
+        "signs) and just inside/outside the norm gate; t1 all 0x3FF; public key all-FF / all-00; mutated valid signatures; random bytes; the API entry points on a grid of {pure, SHA-256, SHA-512} x context "
+        "lengths {None, 0, 1, 190..192, 222..225, 243..245, 254, 255, 256} (framed-message sizes around 256/300/320 bytes) for verify and sign; plus the honest "
         "path (keygen from extreme seeds, signing) in both builds. Oracle: no panic, a boolean answer, checked build = release build; a subset also "
         "= model (whose Panic is the checked build's panic). Non-trivial = adversarial case; distinct (fn,copy,input).")
 ASSUMPTIONS = ["byte strings sampled around the structure of the decoder; the no-panic theorems quantify over all of them for the model"]
@@ -85,6 +86,18 @@ def gen(tier, rng):
                 out.append(Case("ml_verify", api, [pk, m, (sig + b"\x00")[:n], b"c"], ["in_domain", "adversarial", "api", "crate-only"]))
                 out.append(Case("ml_prehash_verify", api, [pk, m, (sig + b"\x00")[:n], 0, 1], ["in_domain", "adversarial", "api", "crate-only"]))
             out.append(Case("ml_verify", api, [pk, m, sig, bytes(300)], ["in_domain", "adversarial", "api", "crate-only"]))
+            # every mode x hash x context length (None, 0, 1, around the sizes at which the framed message M' crosses 256/300/320
+            # bytes, 255, and over-long), with a random-byte signature and with a mutated genuine one; signing likewise
+            rb = bytes(rng.randrange(256) for _ in range(p.sig))
+            for cl in (None, 0, 1, 190, 191, 192, 222, 223, 224, 225, 243, 244, 245, 254, 255, 256):
+                ctx = 0 if cl is None else bytes(rng.randrange(256) for _ in range(cl))
+                mm = bytes(rng.randrange(256) for _ in range(rng.choice([0, 1, 64, 200])))
+                tg = ["in_domain", "adversarial", "api", "ctx-grid"]
+                out.append(Case("ml_verify", api, [pk, mm, rb, ctx], tg + ["crate-only"]))
+                for ph in (0, 1):
+                    out.append(Case("ml_prehash_verify", api, [pk, mm, rb, ctx, ph], tg + ([] if cl in (224, 255) else ["crate-only"])))
+                    out.append(Case("ml_prehash_sign", api, [sk, mm, ctx, 0, ph, b""], tg + ["sign", "crate-only"]))
+                out.append(Case("ml_sign", api, [sk, mm, ctx, 1, bytes(rng.randrange(256) for _ in range(32))], tg + ["sign", "crate-only"]))
         else:
             for n in (0, p.sig - 1, p.sig + 1):
                 out.append(Case("api_verify", api, [pk, m, (sig + b"\x00")[:n]], ["in_domain", "adversarial", "api", "crate-only"]))
